@@ -531,6 +531,12 @@ def st_quals(ctx, n, label="quals", maxsteps=8, documented_panics=False):
     out = []
     for _ in range(n):
         steps = [rand_quals_step(r) for _ in range(1 + r.below(maxsteps))]
+        if r.chance(1, 4):
+            # Index / IndexMut on a key that is certainly present (any letter case): the success paths
+            kk = r.pick(["a_b", "aab", "k", "key", "type", "zz", "repository_url", "checksum"])
+            at = r.below(len(steps) + 1)
+            steps[at:at] = ["ins:%s:%s" % (hx(flipcase(r, kk)), hx("1")), "idxmut:%s:%s" % (hx(flipcase(r, kk)), hx(r.pick(["2", "", "x y"]))),
+                            "idx:%s" % hx(flipcase(r, kk))]
         if documented_panics and r.chance(1, 10):
             steps.append("idx:" + hx(r.pick(KEY_UNIVERSE)))
         out.append(case("quals " + ";".join(steps), "quals"))
